@@ -233,6 +233,12 @@ def run(tier):
             v.reject('C18:' + r['kind'] + ':' + ','.join(cl),
                      {'case': r['_label'], 'failed': cl,
                       'first_values': (r['lin'][:8] if r['kind'] == 'all' else r['obs'][:2])})
+    def _corrupt(r):
+        if r['kind'] != 'all' or r['n'] > 4:
+            return None
+        r['lin'][0] += 1
+        return r
+    common.binding_selftest('c18', 'C18_Data', recs, _corrupt, cfg='C18_Data.cfg')
     rc = v.finish()
     n_all = sum(len(r['lin']) for r in recs)
     n_dy = sum(len(r['obs']) for r in recs)
